@@ -285,3 +285,21 @@ Example C08_has_key_path_code_nonvacuous :
   fn_hasKeyPath 6 gstate0 [] (VMap [(s "a", VMap [(s "k", VStr (s "1")); (s "b", VList [VMap [(s "k", VNil)]; VMap [(s "k", VNil)]])])]) (s "k") []
   = Ret [(s "a.k", true); (s "a.b.k", true)].
 Proof. vm_compute. reflexivity. Qed.
+
+(* the EXPORTED entry point: go2v's translation of Map.ValuesForKey, calling the translated getSubKeyMap and the translated
+   hasKey (run with enough fuel), IS the model's values_for_key *)
+From Mxj Require Import GenProofs.PureG5.
+
+Theorem C08_values_for_key_code_is_model : forall pf st m key subkeys,
+  g_fieldSep st <> [] ->
+  fn_ValuesForKey (run_getSubKeyMap pf st) (run_hasKey st) st m key subkeys
+  = of_res (values_for_key pf (g_fieldSep st) (VMap m) key subkeys).
+Proof. exact values_for_key_code_is_model. Qed.
+Print Assumptions C08_values_for_key_code_is_model.
+
+Example C08_values_for_key_code_nonvacuous :
+  fn_ValuesForKey (run_getSubKeyMap (fun x => Some x) gstate0) (run_hasKey gstate0) gstate0
+    [(s "a", VList [VMap [(s "k", VMap [(s "id", VStr (s "7"))])]; VMap [(s "k", VMap [(s "id", VStr (s "8"))])]])] (s "k") [s "id:7"]
+  = Ret (Ok [VMap [(s "id", VStr (s "7"))]]) /\
+  fn_ValuesForKey (run_getSubKeyMap (fun x => Some x) gstate0) (run_hasKey gstate0) gstate0 [] (s "k") [s "a:b:c:d"] = Ret (Err EOther).
+Proof. split; vm_compute; reflexivity. Qed.
